@@ -19,6 +19,15 @@ theorem and_xor_eq_natAndNot (a b : Nat) : a &&& (a ^^^ b) = natAndNot a b := by
   rw [Nat.testBit_and, Nat.testBit_xor, testBit_natAndNot]
   cases a.testBit i <;> cases b.testBit i <;> rfl
 
+/-- closes a leaf whose two sides differ at most in the order of the operands of `&&&`, `|||`, `^^^`
+    (the magnitude kernels are commutative: the source may write `a.bitand(b)` or `b.bitand(a)`) -/
+syntax "bclose" : tactic
+macro_rules
+  | `(tactic| bclose) => `(tactic| first | done | rfl |
+      (simp only [Nat.land_comm, Nat.lor_comm, Nat.xor_comm]; done) |
+      (simp only [Nat.land_comm, Nat.lor_comm, Nat.xor_comm]; rfl) |
+      (simp only [Nat.land_comm, Nat.lor_comm, Nat.xor_comm, natAndNot]; done))
+
 theorem toNat_pred (b : Nat) : ((b : Int) - 1).toNat = b - 1 := by omega
 
 /-- `IBig & IBig` as generated from the source -/
@@ -31,13 +40,17 @@ theorem gen_ibig_bitand (s0 s1 : Sign) (m0 m1 : Int) (h0 : 0 ≤ m0) (h1 : 0 ≤
     simp only [impl_ibig_bitand, mkIBig, bitand, and_not, into_typed, sub_one, bitor, not_,
       HasNot.not_, Sign.apply, Int.toNat_natCast, toNat_pred, Int.ofNat_eq_natCast]
   · rw [specAnd_pp]
+    all_goals bclose
   · have hb : b ≠ 0 := by have := hn1 rfl; omega
     rw [specAnd_pn a b hb, and_xor_eq_natAndNot]
+    all_goals bclose
   · have ha : a ≠ 0 := by have := hn0 rfl; omega
     rw [specAnd_np a b ha, and_xor_eq_natAndNot]
+    all_goals bclose
   · have ha : a ≠ 0 := by have := hn0 rfl; omega
     have hb : b ≠ 0 := by have := hn1 rfl; omega
-    rw [specAnd_nn a b ha hb]; rfl
+    rw [specAnd_nn a b ha hb]
+    all_goals bclose
 
 /-- `IBig | IBig` as generated from the source -/
 theorem gen_ibig_bitor (s0 s1 : Sign) (m0 m1 : Int) (h0 : 0 ≤ m0) (h1 : 0 ≤ m1)
@@ -49,13 +62,17 @@ theorem gen_ibig_bitor (s0 s1 : Sign) (m0 m1 : Int) (h0 : 0 ≤ m0) (h1 : 0 ≤ 
     simp only [impl_ibig_bitor, mkIBig, bitand, and_not, into_typed, sub_one, bitor, not_,
       HasNot.not_, Sign.apply, Int.toNat_natCast, toNat_pred, Int.ofNat_eq_natCast]
   · rw [specOr_pp]
+    all_goals bclose
   · have hb : b ≠ 0 := by have := hn1 rfl; omega
-    rw [specOr_pn a b hb, and_xor_eq_natAndNot]; rfl
+    rw [specOr_pn a b hb, and_xor_eq_natAndNot]
+    all_goals bclose
   · have ha : a ≠ 0 := by have := hn0 rfl; omega
-    rw [specOr_np a b ha, and_xor_eq_natAndNot]; rfl
+    rw [specOr_np a b ha, and_xor_eq_natAndNot]
+    all_goals bclose
   · have ha : a ≠ 0 := by have := hn0 rfl; omega
     have hb : b ≠ 0 := by have := hn1 rfl; omega
-    rw [specOr_nn a b ha hb]; rfl
+    rw [specOr_nn a b ha hb]
+    all_goals bclose
 
 /-- `IBig ^ IBig` as generated from the source -/
 theorem gen_ibig_bitxor (s0 s1 : Sign) (m0 m1 : Int) (h0 : 0 ≤ m0) (h1 : 0 ≤ m1)
@@ -67,13 +84,17 @@ theorem gen_ibig_bitxor (s0 s1 : Sign) (m0 m1 : Int) (h0 : 0 ≤ m0) (h1 : 0 ≤
     simp only [impl_ibig_bitxor, mkIBig, bitxor, into_typed, sub_one, not_,
       HasNot.not_, Sign.apply, Int.toNat_natCast, toNat_pred, Int.ofNat_eq_natCast]
   · rw [specXor_pp]
+    all_goals bclose
   · have hb : b ≠ 0 := by have := hn1 rfl; omega
-    rw [specXor_pn a b hb]; rfl
+    rw [specXor_pn a b hb]
+    all_goals bclose
   · have ha : a ≠ 0 := by have := hn0 rfl; omega
-    rw [specXor_np a b ha]; rfl
+    rw [specXor_np a b ha]
+    all_goals bclose
   · have ha : a ≠ 0 := by have := hn0 rfl; omega
     have hb : b ≠ 0 := by have := hn1 rfl; omega
     rw [specXor_nn a b ha hb]
+    all_goals bclose
 
 /-- consequently the generated tables satisfy the relational two's-complement statement -/
 theorem gen_ibig_bitand_bits (s0 s1 : Sign) (m0 m1 : Int) (h0 : 0 ≤ m0) (h1 : 0 ≤ m1)
